@@ -276,6 +276,21 @@ def pointer_case(ctx, text, docs):
                 classify(ctx, o, (jsonpath.JSONPointerResolutionError,), "resolve_parent", dict(case, doc=d))
                 o = guarded(lambda: jsonpath.pointer.resolve(text, copy.deepcopy(d), default=None, unicode_escape=ue, uri_decode=ud))
                 classify(ctx, o, fam, "pointer.resolve(default)", dict(case, doc=d))
+    # the same tokens handed over as parts (a list, a one-shot iterable) under every decoding option
+    raw_parts = text.split("/")[1:] if text.startswith("/") else [text]
+    for ue in (True, False):
+        for ud in (False, True):
+            case = {"kind": "pointer", "text": text, "unicode_escape": ue, "uri_decode": ud, "docs": docs, "as_parts": True}
+            for name, fn in (("from_parts", lambda: JSONPointer.from_parts(list(raw_parts), unicode_escape=ue, uri_decode=ud)), ("from_parts(iterator)", lambda: JSONPointer.from_parts(iter(raw_parts), unicode_escape=ue, uri_decode=ud))):
+                c = guarded(fn)
+                if classify(ctx, c, fam, name, case):
+                    classify(ctx, guarded(lambda: str(c.value)), fam, name + ".str", case)
+            for d in docs[:2]:
+                o = guarded(lambda: jsonpath.pointer.resolve(list(raw_parts), copy.deepcopy(expand(d)), default=None, unicode_escape=ue, uri_decode=ud))
+                classify(ctx, o, fam, "pointer.resolve(parts, default)", dict(case, doc=d))
+                o = guarded(lambda: jsonpath.pointer.resolve(iter(raw_parts), copy.deepcopy(expand(d)), unicode_escape=ue, uri_decode=ud))
+                classify(ctx, o, fam, "pointer.resolve(parts)", dict(case, doc=d))
+    ctx.count("pointer_texts_also_given_as_parts")
     ctx.case(h("p", text), True)
     ctx.count("pointer_accepted" if any_ok else "pointer_rejected")
     # the same text as a relative pointer, and applied to bases
@@ -599,7 +614,8 @@ def run_workload(spec, ctx):
                 query_case(ctx, text.replace("%s", q_), ROOT_DOCS + [[{"a": 1, "b": [1]}, {"a": {"a": 2}}]], options="reentrant")
         for text in DIRECTED_QUERIES:
             query_case(ctx, text, ROOT_DOCS + [[{"a": v, "b": w} for v in (1, "x", None, [1], {"k": 1}, True, 1.5, "abc") for w in ("abc", [1], {"x": 1}, 2)]])
-        for text in ("0+" + "9" * 4300, "0+" + "9" * 4300 + "#", "1+" + "9" * 4300 + "/x", "0-" + "9" * 4300, "0+" + "9" * 4299, "0+" + "9" * 4299 + "#", "0+" + "1" * 4300, "9" * 4300, "9" * 4300 + "#", "/" + "9" * 4300, "/a/" + "9" * 4300, "/#" + "9" * 4300, "/-" + "9" * 4300,
+        for text in ("/caf%E9", "/%ff", "/%80", "/a%C3", "/%e2%82", "/%ED%A0%80", "/%c0%af", "/%F0%9F%98", "/ok%20/%FF/x", "/%", "/%4", "/%u0041", "/%E9/%41", "/%00", "/+%2B",
+                     "0+" + "9" * 4300, "0+" + "9" * 4300 + "#", "1+" + "9" * 4300 + "/x", "0-" + "9" * 4300, "0+" + "9" * 4299, "0+" + "9" * 4299 + "#", "0+" + "1" * 4300, "9" * 4300, "9" * 4300 + "#", "/" + "9" * 4300, "/a/" + "9" * 4300, "/#" + "9" * 4300, "/-" + "9" * 4300,
                      "/" + "1" * 4301, "/a/-" + "1" * 4301, "0+" + "1" * 4301, "1" * 4301, "1" * 4301 + "#", "/#" + "1" * 4301, "/#abc", "/a\\", "/\\u00e9", "/\\ud83d", "/\\", "\\", "/%", "/%zz", "/~", "/~2", "a", " /a", "/" + "9" * 30, "/-" + "9" * 30, "/#", "/#-1", "/#1e2", "/a/#", "0#", "0", "1#", "0+1", "0-1", "0+10", "0+99999999999999999999999", "/\x00", "/퟿"):
             pointer_case(ctx, text, ROOT_DOCS + [{"a": [1, 2], "#abc": 1, "é": 2}])
         for ops in ([{"op": "remove", "path": "/1"}], [{"op": "move", "from": "/a", "path": "/b/-"}], [{"op": "copy", "from": "/a", "path": "/b/-"}], [{"op": "add", "path": "/b/1e0", "value": 1}], [{"op": "add", "path": "/a\\", "value": 1}],
